@@ -58,6 +58,18 @@ structure DigitallySigned where
   sig : Bytes
 deriving DecidableEq, Repr
 
+/-- the (EC)DSA case bodies of tls.VerifySignature after the key type assertion: `asn1.Unmarshal` of the pair,
+trailing bytes, sign check, exactness check (where present), primitive -/
+def verifyPair (P : Prims) (key : Key) (h : Nat) (d : Bytes) (alg : Nat) (trailingIgnored : Bool) (sig : Bytes) : Outcome :=
+  match parseSigPair sig with
+  | none => .err                             -- asn1.Unmarshal failed
+  | some p =>
+    if !trailingIgnored && !p.rest.isEmpty then .err
+    else if Gen.sigReject alg p.r p.s then .err
+    else if Gen.sigExactDER alg && !p.extra.isEmpty then .err   -- checkExactDER, where the code has it
+    else if key.isNil then .panic
+    else if P.prim key h d (.pair p.r p.s) then .ok else .err
+
 /-- tls.VerifySignature(pubKey, data, sig) -/
 def verifySignature (P : Prims) (key : Key) (data : Bytes) (ds : DigitallySigned) : Outcome :=
   match Gen.sigHashTable.lookup ds.hash with
@@ -71,15 +83,7 @@ def verifySignature (P : Prims) (key : Key) (data : Bytes) (ds : DigitallySigned
       else if !der then
         if key.isNil then .panic
         else if P.prim key h d (.raw ds.sig) then .ok else .err
-      else
-        match parseSigPair ds.sig with
-        | none => .err                             -- asn1.Unmarshal failed
-        | some p =>
-          if !trailingIgnored && !p.rest.isEmpty then .err
-          else if Gen.sigReject ds.sigAlg p.r p.s then .err
-          else if Gen.sigExactDER ds.sigAlg && !p.extra.isEmpty then .err   -- checkExactDER, where the code has it
-          else if key.isNil then .panic
-          else if P.prim key h d (.pair p.r p.s) then .ok else .err
+      else verifyPair P key h d ds.sigAlg trailingIgnored ds.sig
 
 /-- ct.NewSignatureVerifier(pk) with `AllowVerificationWithNonCompliantKeys = allow`: is a verifier returned? -/
 def newVerifier (key : Key) (allow : Bool) : Bool :=
@@ -115,7 +119,7 @@ def verifySTH (P : Prims) (key : Key) (sth : STH) : Outcome :=
   | some msg => verifySignature P key msg sth.sig
 
 inductive Loaded (α : Type) | ok (v : α) | err | panic
-deriving Repr
+deriving Repr, DecidableEq
 
 /-- loglist3.NewFromSignedJSON(llData, rawSig, pubKey); `parse` stands for NewFromJSON -/
 def newFromSignedJSON {α : Type} (P : Prims) (parse : Bytes → Option α) (key : Key) (llData rawSig : Bytes) : Loaded α :=
